@@ -475,7 +475,7 @@ def _cross_grid() -> list[dict[str, Any]]:
 
 def main(chk: Check) -> None:
     chk.enumerate("cross_worker_twins", _cross_grid(), run_history)
-    chk.explore("history", histories, run_history, quick=400, thorough=24000)
-    chk.explore("focused", focused, run_focused, quick=150, thorough=8000)
+    chk.explore("history", histories, run_history, quick=800, thorough=24000)
+    chk.explore("focused", focused, run_focused, quick=300, thorough=8000)
     complete = chk.enumerate("bitflips_truncations", _grid(), run_focused)
     chk.extra["grid_complete"] = bool(complete)
